@@ -688,6 +688,46 @@ def inplace_problems(make_obj, tag):
     return []
 
 
+def list_whitespace_problems(cls, make_obj, tag):
+    """xs:list values may be separated by any white space (blank, tab, line break, several of them): the same XML with the
+    separators of its list-typed members re-spelled must parse to the same value."""
+    from sdc11073.xml_types import xml_structure as xs
+    obj = make_obj()
+    try:
+        node = write(obj, tag)
+    except Exception:  # noqa: BLE001
+        return []
+    if node is None:
+        return []
+    original = etree.fromstring(etree.tostring(node))
+    variant = etree.fromstring(etree.tostring(node))
+    changed = []
+    for name, prop in members(obj):
+        if isinstance(prop, xs._AttributeListBase):  # noqa: SLF001
+            attr = getattr(prop, '_attribute_name', None)
+            v = variant.get(attr) if attr else None
+            if v and ' ' in v.strip():
+                variant.set(attr, v.replace(' ', '\n\t'))      # the parser normalises line breaks in attributes to blanks
+                changed.append(name)
+        elif type(prop).__name__ in ('NodeTextListProperty', 'NodeTextQNameListProperty'):
+            sub_name = getattr(prop, '_sub_element_name', None)
+            sub = variant.find(sub_name) if sub_name is not None else variant
+            if sub is not None and sub.text and ' ' in sub.text.strip():
+                sub.text = '\n\t' + sub.text.strip().replace(' ', '\n\t\t') + '\n'
+                changed.append(name)
+    if not changed:
+        return []
+    variant = etree.fromstring(etree.tostring(variant))
+    try:
+        a = norm(canon.canon_obj(reflect.from_node(cls, original, obj)))
+        b = norm(canon.canon_obj(reflect.from_node(cls, variant, obj)))
+    except Exception as ex:  # noqa: BLE001
+        return [('list-with-other-whitespace-raises', f'{changed}: {ex!r}'[:300])]
+    if a != b:
+        return [('list-with-other-whitespace-parsed-differently', f'{changed}: {_canon_diff(a, b)}'[:400])]
+    return []
+
+
 def _class_job(acc, arg):
     name, pairs = arg
     world.install()     # virtual clock: CurrentTimestamp members write the same instant every time
@@ -740,6 +780,7 @@ def _class_job(acc, arg):
                 return apply(cls, devlist)
             tag = etree.QName(target[1], target[2]) if target is not None and target[0] == 'element' else reflect.TAG
             problems = problems + inplace_problems(make_obj, tag)
+            problems = problems + list_whitespace_problems(cls, make_obj, tag)
         acc.evals()
         acc.trace()
         acc.transition()
